@@ -10,6 +10,8 @@ import (
 	"strings"
 )
 
+var evidenceDirOverride string
+
 type Coverage struct {
 	States             int64            `json:"states"`
 	Transitions        int64            `json:"transitions"`
@@ -138,6 +140,9 @@ func (ev *Evidence) write() {
 		}
 	}
 	dir := filepath.Join(verifRoot(), "evidence")
+	if evidenceDirOverride != "" {
+		dir = evidenceDirOverride
+	}
 	os.MkdirAll(dir, 0o755)
 	b, _ := json.MarshalIndent(ev, "", " ")
 	os.WriteFile(filepath.Join(dir, ev.PropertyID+".json"), b, 0o644)
